@@ -169,6 +169,9 @@ where
 /// subdivide at that point and try again.
 ///
 pub fn fit_curve_cubic<Curve: BezierCurveFactory+BezierCurve>(points: &[Curve::Point], start_tangent: &Curve::Point, end_tangent: &Curve::Point, max_error: f64) -> Vec<Curve> {
+    // A negative error can never be met, not even by an exact fit (where there is no worst point to split at), so treat it as asking for an exact fit
+    let max_error = if max_error < 0.0 { 0.0 } else { max_error };
+
     if points.len() <= 2 {
         // 2 points is a line (less than 2 points is an error here)
         fit_line(&points[0], &points[1])
